@@ -869,6 +869,12 @@ class InstanceWriteProvider(BaseProvider):
         """
         path = prop.value
 
+        if not isinstance(path, CIMInstanceName):
+            raise CIMError(
+                CIM_ERR_INVALID_PARAMETER,
+                _format("Reference property {0!A} has a value that is not an "
+                        "instance path: {1!A}", prop.name, path))
+
         if path.namespace is None:
             raise CIMError(
                 CIM_ERR_INVALID_PARAMETER,
